@@ -112,6 +112,27 @@ def oracle(chk: core.Check, thorough: bool):
         fields_gid = det.get_mdc_gid(did.mdc_id_to_layer(np.asarray(ids2, dtype=np.uint32)), did.mdc_id_to_wire(np.asarray(ids2, dtype=np.uint32)))
         expect(f"parse_mdc_digi_id.gid ({what})", {"digi_id": np.asarray(ids2)}, p2["gid"], fields_gid, "gid from parsing the identifier == gid from its decoded fields")
         expect(f"parse_mdc_digi_id.gid ({what}) vs element", {"digi_id": np.asarray(ids2)}, p2["gid"], exp_gid, "parsing returns the element the identifier was built from")
+    # other memory representations of the same identifiers / gids: non-native byte order, Fortran-ordered and transposed 2-d arrays (NW = 4 x 1699)
+    idn = np.asarray(ids, dtype=np.uint32)
+    for rlabel, arr_in, unwrap in (("big-endian uint32 array", idn.astype(">u4"), lambda o: np.asarray(o)),
+                                   ("big-endian int32 array", idn.astype(">i4"), lambda o: np.asarray(o)),
+                                   ("Fortran-ordered 2-d array", np.asfortranarray(idn.reshape(1699, 4)), lambda o: np.asarray(o).reshape(-1)),
+                                   ("transposed 2-d array", idn.reshape(4, 1699).T, lambda o: np.asarray(o).T.reshape(-1) if False else np.ascontiguousarray(np.asarray(o)).reshape(-1))):
+        want_g = exp_gid if "2-d" not in rlabel else (exp_gid.reshape(1699, 4).reshape(-1) if "Fortran" in rlabel else exp_gid.reshape(4, 1699).T.reshape(-1))
+        want_l = layer if "2-d" not in rlabel else (layer.reshape(1699, 4).reshape(-1) if "Fortran" in rlabel else layer.reshape(4, 1699).T.reshape(-1))
+        try:
+            pr = det.parse_mdc_digi_id(arr_in)
+            pr2 = det.parse_mdc_digi_id(arr_in)                      # same object again: the call must not have modified it
+            g1, g2, l1 = unwrap(pr["gid"]), unwrap(pr2["gid"]), unwrap(pr["layer"])
+        except Exception as ex:
+            chk.coverage.setdefault("unsupported_representations", {})[f"parse_mdc_digi_id:{rlabel}"] = f"{type(ex).__name__}"
+            continue
+        expect(f"parse_mdc_digi_id.gid ({rlabel})", {"digi_id": idn}, g1, want_g, "gid from parsing the identifier == gid of the element, whatever the memory layout of the input")
+        expect(f"parse_mdc_digi_id.gid ({rlabel}, second call on the same object)", {"digi_id": idn}, g2, want_g)
+        expect(f"parse_mdc_digi_id.layer ({rlabel})", {"digi_id": idn}, l1, want_l)
+        pg2 = det.parse_mdc_gid(np.asfortranarray(exp_gid.reshape(1699, 4)) if "Fortran" in rlabel else (exp_gid.reshape(4, 1699).T if "transposed" in rlabel else exp_gid.astype(">i8")), with_pos=False)
+        expect(f"parse_mdc_gid.wire ({rlabel.replace('uint32', 'int64').replace('int32', 'int64')})", {"gid": exp_gid}, np.ascontiguousarray(np.asarray(pg2["wire"])).reshape(-1),
+               wire if "2-d" not in rlabel else (wire.reshape(1699, 4).reshape(-1) if "Fortran" in rlabel else wire.reshape(4, 1699).T.reshape(-1)), "parsing a gid returns the element it was built from")
     # call history on ONE buffer object refilled in place (a block-wise reader with a preallocated buffer): results follow the content
     perm = rng.permutation(NW)
     for kind in ("numpy buffer", "zero-copy awkward view of the buffer"):
